@@ -22,8 +22,10 @@ func explainedByEnum(pc *PathCtx, o *Oracle, policy string) (bool, bool) {
 	o.EnumPositions(pc.Src, params.At(pc.SrcIdx).Type(), tt, "source", &pos, 0)
 	any := engine.False
 	for _, p := range pos {
-		if p.Policy == policy {
-			any = engine.Or(any, p.Unknown)
+		if policy == "@error" {
+			any = engine.Or(any, p.Error)
+		} else {
+			any = engine.Or(any, p.Panic)
 		}
 	}
 	if any.IsFalse() {
